@@ -401,6 +401,84 @@ def mtu_history_check(tier):
     return n, viols
 
 
+def live_mtu_check(tier):
+    """Packet.setMTU on a process in which connections already exist (the documented remedy for a lossy path): from then on
+    every datagram a live connection emits respects the NEW limit, and every message the new configuration accepts leaves
+    the queue and reaches the peer.  Two keyed ConnectionBase objects, perfect link, virtual clock; the MTU changes while
+    the queue is empty and nothing is in flight."""
+    from mpgameserver.connection import Packet, ConnectionBase, ConnectionStatus, PacketHeader, RetryMode
+    vals = [512, 800, 1095, 1096, 1500] if tier == "quick" else [512, 513, 576, 800, 1000, 1095, 1096, 1097, 1400, 1500]
+    viols = {}
+    KEY = bytes(range(64, 80))
+    old = Packet.MTU
+    n = 0
+
+    def flag(sig, hist, msg):
+        viols.setdefault(("live-mtu", sig), [0, {"part": "live-mtu", "history": list(hist)}, msg])[0] += 1
+    try:
+        for a, b in itertools.permutations(vals, 2):
+            for warm in (False, True):
+                n += 1
+                Packet.setMTU(a)
+                now = [7000.0]
+                snd, rcv = ConnectionBase(False, ("10.0.0.9", 9)), ConnectionBase(True, ("10.0.0.9", 9))
+                for c in (snd, rcv):
+                    c.clock = lambda: now[0]
+                    c.session_key_bytes = KEY
+                    c.status = ConnectionStatus.CONNECTED
+                got = []
+                sizes_seen = []
+
+                def frame():
+                    now[0] += 0.02
+                    for x, y, to_server in ((snd, rcv, True), (rcv, snd, False)):
+                        pkt = x._build_packet()
+                        if pkt is not None:
+                            d = x._encode_packet(pkt)
+                            if x is snd:
+                                sizes_seen.append(len(d))
+                            y._recv_datagram(PacketHeader.from_bytes(to_server, d), d)
+                        x._check_timeout(now[0])
+                    got.extend(m for _, m in rcv.incoming_messages)
+                    rcv.incoming_messages = []
+                    snd.incoming_messages = []
+                if warm:
+                    # the connection has carried traffic under the old MTU (a burst and a fragmented message), all acked
+                    for i in range(6):
+                        snd.send(b"w%02d" % i * 20, retry=RetryMode.NONE)
+                    snd.send(b"W" * (caps(a)[0] + 50), retry=RetryMode.RETRY_ON_TIMEOUT)
+                    for _ in range(40):
+                        frame()
+                    got[:] = []
+                    sizes_seen[:] = []
+                Packet.setMTU(b)
+                P, F = caps(b)
+                msgs = [bytes([65 + i]) * 60 for i in range(24)] + [b"p" * P, b"q" * (P + 1), b"r" * (2 * F + 3), b"s" * min(1000, P)]
+                refused = []
+                for m in msgs:
+                    try:
+                        snd.send(m, retry=RetryMode.RETRY_ON_TIMEOUT if len(m) > 100 else RetryMode.NONE)
+                    except Exception as e:
+                        refused.append((len(m), repr(e)))
+                for _ in range(120):
+                    frame()
+                hist = [a, b, "warm" if warm else "fresh"]
+                if refused:
+                    flag("send refuses a message the configured MTU allows", hist, "after setMTU %d -> %d: %r" % (a, b, refused[:2]))
+                over = [x for x in sizes_seen if x > b - 28]
+                if over:
+                    flag("a live connection emits datagrams above the newly configured limit", hist,
+                         "after setMTU %d -> %d (%s connection): datagrams of %r bytes, limit is MTU-28 = %d" % (a, b, hist[2], sorted(set(over))[-3:], b - 28))
+                missing = [len(m) for m in msgs if m not in got]
+                if missing:
+                    flag("a message accepted under the new MTU never reaches the peer over a perfect link", hist,
+                         "after setMTU %d -> %d (%s connection): sizes %r undelivered after 2.4 s; still queued %d, awaiting retry %d" % (
+                             a, b, hist[2], missing[:4], len(snd.outgoing_messages), len(snd.pending_retry_msg)))
+    finally:
+        Packet.setMTU(old)
+    return n, viols
+
+
 def run(tier, seed):
     rep = core.Report()
     n = 64
@@ -419,6 +497,9 @@ def run(tier, seed):
             acc[key][0] += cnt
     n_hist, hv = mtu_history_check(tier)
     for key, (cnt, wit, msg) in hv.items():
+        acc[key] = [cnt, wit, msg]
+    n_live, lv = live_mtu_check(tier)
+    for key, (cnt, wit, msg) in lv.items():
         acc[key] = [cnt, wit, msg]
     plist = params_list(tier)
     st = explore.explore_all("checks.c09", "scenario", plist, 0, time_budget=(1000 if tier == "quick" else 3600))
@@ -439,7 +520,7 @@ def run(tier, seed):
         "evaluations": total + st.executions + st2.executions, "distinct_nontrivial": nontrivial + len(st.outcomes) + len(st2.outcomes),
         "codec_cases": total, "codec_exact_round_trips": nontrivial, "codec_classes": dict(classes),
         "stall_executions": st2.executions, "stall_configurations": len(splist),
-        "packing_executions": st.executions, "packing_configurations": len(plist), "packing_ticks": st.steps, "packing_capped": st.capped, "mtu_histories": n_hist,
+        "packing_executions": st.executions, "packing_configurations": len(plist), "packing_ticks": st.steps, "packing_capped": st.capped, "mtu_histories": n_hist, "mtu_changes_on_live_connections": n_live,
         "rule": "codec: isServer x 4 ctimes x 8 types x 5x5 seq/ack x 5 ack_bits x %d message lists (count 0,1,2 with all 64 inner type pairs,3,254,255) x {crc, gcm}%s; non-trivial = exact round trips. "
                 "packing: MTUs x {client, server-twisted, server-thread} x every send sequence of <=2/3 lengths from {0,1,P-6,P-5,P-1,P,P+1,P/2,P/2+1} per retry mode, mixed-mode triples, bursts of 254..300 messages of 0/1 bytes; perfect network until drained. stall: retry-mode messages sent on consecutive frames with withheld acks, then one or two long frames (0.25/0.6 s) so that everything due for resend meets in one build" % (
                     len(message_lists()), " (quick: every 5th list per header, rotating)" if tier == "quick" else ""),
@@ -460,6 +541,9 @@ def replay(witness):
     if witness.get("part") == "packing":
         ch = explore.replay_choices(scenario, _tup(witness["params"]), witness.get("choices", []))
         return [core.Violation(o, s, witness, m) for o, s, m in ch.found]
+    if witness.get("part") in ("mtu-history", "live-mtu"):
+        n, v = (mtu_history_check if witness["part"] == "mtu-history" else live_mtu_check)("quick")
+        return [core.Violation(k[0], k[1], witness, x[2]) for k, x in v.items()]
     return []
 
 
